@@ -120,6 +120,7 @@ class Sched:
                 raise Unknown("no MIR for VmGreenThread::%s" % f)
         self.allow_spawn = allow_spawn
         self.m = mirvm.Machine(allf, self.resolver, self.summaries(), enums)
+        self.m.named_consts = mirvm.parse_named_consts(mir_text)
 
     # ------------------------------------------------------------ call resolution
     def resolver(self, callee, fn):
